@@ -229,6 +229,13 @@ class History(c01.History):
         spec = dl.spec_spelling(toks)
         meanings = [t.meaning() for t in toks]
         leaf_ann = Shaped[np.ndarray, spec]
+        if s.get("alt1"):
+            # leaf type Union[<binds fresh axes, then fails on size 99>, <the real annotation>]: whatever the first
+            # alternative bound tentatively must be gone, also when the PyTree check as a whole PASSES
+            from typing import Union
+
+            alt1 = dl.spec_spelling([c01.tok_from_json(j) for j in s["alt1"]])
+            leaf_ann = Union[Shaped[np.ndarray, alt1], leaf_ann]
         sname = s.get("structure")
         ann = PyTree[leaf_ann, sname] if sname else PyTree[leaf_ann]
         desc = gt.from_json(s["tree"])
@@ -340,6 +347,9 @@ def draw_step(data, hist: History):
             bad = base[:-1] + [base[-1] + 1] if base and base[-1] not in (1,) else base + [7, 7, 7]
             leaves = ([base] if prev is None else []) + [wide, bad if data.draw(st.integers(0, 3)) else wide]
             s["tree"] = gt.to_json(("tuple", [("leaf", l) for l in leaves]))
+        first = next((lf[1] for lf in pt.leaves(gt.from_json(s["tree"])) if not isinstance(lf[1], str)), None)
+        if first and data.draw(st.integers(0, 3)) == 0:
+            s["alt1"] = [c01.tok_json(t) for t in [dl.Token("", "name", f"q{i}") for i in range(len(first) - 1)] + [dl.Token("", "int", 99)]]
         # a composite over bound names: half of the time build the matching composed tree instead
         if sk == "composite":
             ps = s["structure"].split()
